@@ -60,6 +60,9 @@ func vInstallSetup(L int, withCR bool) *vInstallCase {
 		vAssume(vImp(req.lastIndex == r.snaps.index, req.lastTerm == r.snaps.term))
 	}
 	c, _ := vMkConn(nil)
+	// the FSM goroutine: whenever the raft goroutine waits for it (onInstallSnapRequest lets it finish what is queued
+	// before it resets the log) it runs its real loop over its queue
+	vSetIdleHook(func() { vDrainFSM(r) })
 	return &vInstallCase{r: r, a: a, req: req, conn: c}
 }
 
@@ -149,5 +152,38 @@ func VH_C19_install_stale() {
 	vAssert(r.fsm.index >= f0, "applied-never-decreases/stale-install")
 	vAssert(r.snaps.index >= s0, "snapshot-index-never-decreases/stale-install")
 	vAssertNI(r, a, "NI-stale")
+	vReach("end")
+}
+
+//verif:check C09,C15,C03 stubs=env,valuefile,abslog,snapfs reach=pending-apply,reset,applied-after,end desc="a follower whose state machine is still behind its commit index (the apply request with its log view is queued for the FSM loop, as Raft.applyCommitted leaves it) receives a snapshot that makes it discard its log: when the FSM loop gets to the queued apply and then to the restore, it reads no log data the reset has unmapped, and ends at the snapshot's position" bounds="follower log of 1 entry after a symbolic base; FSM behind by that entry; request under CR/LC; all 64-bit values"
+func VH_C09_install_pending_apply() { vInstallPendingApply(1) }
+
+//verif:check C09,C15 tier=thorough stubs=env,valuefile,abslog,snapfs reach=pending-apply,reset,applied-after,end desc="as VH_C09_install_pending_apply with a longer log" bounds="follower log of 2 entries; FSM behind by 1..2 entries"
+func VH_C09_install_pending_apply_L2() { vInstallPendingApply(2) }
+
+func vInstallPendingApply(L int) {
+	c := vInstallSetup(L, true)
+	r, a, req := c.r, c.a, c.req
+	vNoConfigEntries()
+	vAssume(r.fsm.index < r.commitIndex && r.fsm.index >= a.prev)
+	// what setCommitIndex/applyCommitted left behind when the commit index last moved
+	r.applyCommitted(nil)
+	vAssert(len(r.fsm.ch) == 1, "apply-queued")
+	vReach("pending-apply")
+	// requests that make the node discard its log (the keep-suffix arm with the state machine behind the snapshot
+	// index is observation S4 of DESIGN.md §6: no legitimate sender builds such a request)
+	vAssume(vNot(vAnd(vAnd(req.lastIndex > a.prev, req.lastIndex <= a.last()), vTermAt(a, a.base, req.lastIndex) == req.lastTerm)))
+	res, _ := r.onInstallSnapRequest(req, c.conn)
+	if res == success && a.nReset > 0 {
+		vReach("reset")
+	}
+	vDrainFSM(r)
+	for len(r.fsmRestoredCh) > 0 {
+		vAssert(<-r.fsmRestoredCh == nil, "fsm-restore-ok")
+	}
+	if res == success && a.nReset > 0 {
+		vReach("applied-after")
+		vAssert(r.fsm.index == req.lastIndex, "PA-state-machine-ends-at-the-snapshot")
+	}
 	vReach("end")
 }
